@@ -185,6 +185,9 @@ func (instr *InstrActions) Len() (n uint16) {
 }
 
 func (instr *InstrActions) MarshalBinary() (data []byte, err error) {
+	// An action may have grown since it was added (nested conntrack actions,
+	// notes, learn specs): declare the length that is actually written.
+	instr.Length = instr.Len()
 	data, err = instr.InstrHeader.MarshalBinary()
 
 	b := make([]byte, 4)
